@@ -412,7 +412,7 @@ func waitDeregisterTrial(n *valuenotifier.Notifier[int], shape int) error {
 
 func TestNotifierWaitDeregisterWindow(t *testing.T) {
 	stats.Rule(windowCheck, "fixed tight loop: Listener(1); Wait(Background) racing with Deregister() of the same listener, Notify never called; two goroutine shapes alternate; every trial is the same input, the schedule varies; a trial is non-trivial when Wait really raced (returned ErrListenerDeregistered from inside the select or the early check - not distinguishable, so all trials count as one distinct case)")
-	total := stats.Scale(1_500_000, 12_000_000)
+	total := stats.Scale(3_000_000, 24_000_000)
 	_, shards := stats.Shard()
 	trials := total / shards
 	n := valuenotifier.New[int]()
